@@ -3,6 +3,7 @@ package main
 import (
 	"fmt"
 	"go/types"
+	"sort"
 	"strings"
 
 	"golang.org/x/tools/go/ssa"
@@ -43,8 +44,120 @@ func (ex *Exec) callValue(fr *Frame, in ssa.Instruction, c *ssa.CallCommon, fnv 
 		}
 		ex.callFunction(fr, in, f, all, st, cont)
 	default:
+		ex.callSymbolicFunc(fr, in, c, fv, args, st, cont)
+	}
+}
+
+// call through a function value that was loaded from memory: resolve by id, or split
+// over the module functions of that signature whose address is taken (closed world).
+func (ex *Exec) callSymbolicFunc(fr *Frame, in ssa.Instruction, c *ssa.CallCommon, fv *FuncV, args []Value, st *State, cont callCont) {
+	if fv.Sym == nil {
 		panic(abortPath{"call through unknown function value"})
 	}
+	sym := Subst(fv.Sym, st.substMap())
+	if in != nil {
+		ex.safe(st, in, "nilfunc", Neq(sym, BVc(0, 64)))
+	}
+	if sym.IsConst() {
+		fn := ex.eng.fnByID[sym.Val.Int64()]
+		if fn == nil {
+			panic(abortPath{"call through function value with unknown id"})
+		}
+		ex.callFunction(fr, in, fn, args, st, cont)
+		return
+	}
+	sig, _ := c.Value.Type().Underlying().(*types.Signature)
+	var cands []*ssa.Function
+	for _, fn := range ex.eng.fnByID {
+		if sig != nil && types.Identical(fn.Signature, sig) && len(fn.FreeVars) == 0 {
+			cands = append(cands, fn)
+		}
+	}
+	sort.Slice(cands, func(i, j int) bool { return cands[i].String() < cands[j].String() })
+	if len(cands) == 0 || len(cands) > 64 {
+		panic(abortPath{fmt.Sprintf("call through symbolic function value (%d candidates)", len(cands))})
+	}
+	var others []*Term
+	type arr struct {
+		g   *Term
+		st  *State
+		fr  *Frame
+		res Value
+	}
+	var arrs []arr
+	baseLen := len(st.assumes)
+	for _, fn := range cands {
+		id := ex.eng.funcID(fn)
+		others = append(others, Neq(sym, id))
+		st1 := st.Clone()
+		st1.AssumeCond(Eq(sym, id))
+		if !ex.eng.feasibleSolver(st1) {
+			continue
+		}
+		fr1 := fr.fork()
+		fn1 := fn
+		ex.guard(func() {
+			ex.callFunction(fr1, in, fn1, args, st1, func(st2 *State, fr2 *Frame, res Value) {
+				arrs = append(arrs, arr{And(st2.assumes[baseLen:]...), st2, fr2, res})
+			})
+		})
+	}
+	// merge the arrivals (the candidates are small constructors: same shape of state)
+	merged := false
+	if len(arrs) > 1 {
+		func() {
+			defer func() {
+				if r := recover(); r != nil {
+					if _, ok := r.(abortAll); ok {
+						panic(r)
+					}
+					merged = false
+				}
+			}()
+			mst := arrs[0].st.Clone()
+			var gs []*Term
+			for _, a := range arrs {
+				gs = append(gs, a.g)
+			}
+			mst.assumes = append(append([]*Term{}, st.assumes[:baseLen]...), Or(gs...))
+			mst.subst = st.subst
+			sorts := map[Sort]bool{}
+			for _, a := range arrs {
+				for srt := range a.st.mem.arrs {
+					sorts[srt] = true
+				}
+			}
+			for srt := range sorts {
+				m := arrs[len(arrs)-1].st.mem.arr(srt, mst.memGen)
+				for i := len(arrs) - 2; i >= 0; i-- {
+					m = Ite(arrs[i].g, arrs[i].st.mem.arr(srt, mst.memGen), m)
+				}
+				mst.mem.arrs[srt] = m
+			}
+			var res Value
+			if arrs[0].res != nil {
+				res = arrs[len(arrs)-1].res
+				for i := len(arrs) - 2; i >= 0; i-- {
+					res = IteValue(arrs[i].g, arrs[i].res, res)
+				}
+			}
+			for _, a := range arrs {
+				if *a.st.nextRg > *mst.nextRg {
+					*mst.nextRg = *a.st.nextRg
+				}
+			}
+			merged = true
+			ex.merges++
+			cont(mst, arrs[0].fr, res)
+		}()
+	}
+	if !merged {
+		for _, a := range arrs {
+			a := a
+			ex.guard(func() { cont(a.st, a.fr, a.res) })
+		}
+	}
+	ex.addObl(st, "safe", ex.instrLabelOr(in, "safe:funcvalue"), Not(And(others...)), "function value outside the closed world of the module")
 }
 
 func (ex *Exec) callClosure(fr *Frame, in ssa.Instruction, fn *ssa.Function, bindings, args []Value, st *State, cont callCont) {
@@ -103,7 +216,7 @@ func (ex *Exec) invoke(fr *Frame, in ssa.Instruction, c *ssa.CallCommon, iv *Ifa
 	}
 	// closed-world case split over implementors inside the module
 	impls := ex.eng.implementors(c.Value.Type())
-	if len(impls) == 0 || len(impls) > 48 {
+	if len(impls) == 0 || len(impls) > 300 {
 		panic(abortPath{fmt.Sprintf("invoke %s.%s: dynamic type unknown (%d implementors)", c.Value.Type(), mname, len(impls))})
 	}
 	var others []*Term
@@ -112,6 +225,9 @@ func (ex *Exec) invoke(fr *Frame, in ssa.Instruction, c *ssa.CallCommon, iv *Ifa
 		others = append(others, Neq(iv.Tag, tt))
 		st1 := st.Clone()
 		st1.AssumeCond(Eq(iv.Tag, tt))
+		if !ex.eng.feasibleSolver(st1) {
+			continue
+		}
 		fr1 := fr.fork()
 		t1 := t
 		ex.guard(func() { ex.invokeOn(fr1, in, c, t1, iv, args, st1, cont) })
@@ -145,6 +261,11 @@ func (ex *Exec) invokeOn(fr *Frame, in ssa.Instruction, c *ssa.CallCommon, t typ
 
 func (ex *Exec) callFunction(fr *Frame, in ssa.Instruction, fn *ssa.Function, args []Value, st *State, cont callCont) {
 	name := fn.String()
+	if ex.initMode && fn.Name() == "init" && fn.Pkg != nil && fn.Pkg != ex.root.Pkg {
+		// initialisers of imported packages: their globals are not modelled
+		cont(st, fr, nil)
+		return
+	}
 	if h, ok := intrinsics[name]; ok {
 		ex.intrUsed[name] = true
 		h(ex, fr, in, fn, args, st, cont)
@@ -372,26 +493,33 @@ func (ex *Exec) havocSpec(m string, env *SpecEnv, st *State, ct *Contract) {
 		}
 		ex.havocLeaves(st, pt.Elem(), p.V.(*Term))
 	case "sel":
-		p := env.eval(n.Args[0])
-		pt, ok := p.T.Underlying().(*types.Pointer)
-		if !ok {
-			sfail("modifies x.F: x is not a pointer")
-		}
-		s := pt.Elem().Underlying().(*types.Struct)
-		for i := 0; i < s.NumFields(); i++ {
-			if s.Field(i).Name() == n.Name {
-				ex.havocLeaves(st, s.Field(i).Type(), FldAddr(p.V.(*Term), i))
-				return
-			}
-		}
-		sfail("no such field")
+		a, t := env.lvalAddr(n)
+		ex.havocLeaves(st, t, a)
 	case "slice":
 		sv := env.evalSlice(n)
 		s := sv.V.(*SliceV)
 		et := sv.T.Underlying().(*types.Slice).Elem()
 		ex.havocRange(st, et, s)
 	default:
-		sfail("unsupported modifies form")
+		v := env.eval(n)
+		t, ok := v.V.(*Term)
+		if !ok || t.Sort != SAddr {
+			sfail("unsupported modifies form")
+		}
+		ex.havocRegion(st, t)
+	}
+}
+
+// havocRegion: everything in the region of a (map) becomes unknown.
+func (ex *Exec) havocRegion(st *State, a *Term) {
+	for srt, oldArr := range st.mem.arrs {
+		newArr := FreshVar("mem_r", oldArr.Sort)
+		st.mem.arrs[srt] = newArr
+		b := BoundVar("a$r", SAddr)
+		st.Assume(Forall([]*Term{b}, Implies(Not(Eq(Rg(b), Rg(a))), Eq(mk("select", srt, newArr, b), mk("select", srt, oldArr, b)))))
+	}
+	if rg := Rg(a); rg.IsConst() {
+		delete(st.mapKeys, rg.Val.Int64())
 	}
 }
 
